@@ -95,9 +95,10 @@ def cfgmod():
     return m
 
 
-def build_cfg(case, scheme="plain", via="full"):
+def build_cfg(case, scheme="plain", via="full", share=None):
     """via: 'full' (variables, terminals, start symbol, productions all passed),
-    'prods' (start symbol + productions only)."""
+    'prods' (start symbol + productions only).  share: a dict; when given, the Production objects are created
+    once and reused by every grammar built with the same dict."""
     from .gen import cfg as GC
     m = cfgmod()
     v, t, prods = case
@@ -107,7 +108,12 @@ def build_cfg(case, scheme="plain", via="full"):
 
     def sym(i):
         return V[i] if i < v else T[i - v]
-    P = {m.Production(V[h], [sym(s) for s in body]) for h, body in prods}
+    if share is not None and "P" in share:
+        P = set(share["P"])
+    else:
+        P = {m.Production(V[h], [sym(s) for s in body]) for h, body in prods}
+        if share is not None:
+            share["P"] = list(P)
     if via == "full":
         return m.CFG(set(V), set(T), V[0], P)
     return m.CFG(start_symbol=V[0], productions=P)
